@@ -19,6 +19,7 @@ type c05p struct {
 	prefill int
 	chunks  []string // explicit chunks (instead of k x perRead letters)
 	expect  string   // expected key string for explicit chunks
+	modes   bool     // mouse, paste and focus reporting enabled (mixed event kinds in the stream)
 }
 
 func (p c05p) String() string {
@@ -54,9 +55,20 @@ func c05Scenarios() []scenario {
 		add(c05p{kind: "chanev", k: k, posters: 1, posts: 2})
 		add(c05p{kind: "chanev-fini", k: k, posters: 1, posts: 1})
 	}
+	// the application's channel is full and nobody receives: quit / Fini must still end the
+	// forwarding (an event is in flight inside ChannelEvents) and close the channel
+	for _, k := range []int{2, 3} {
+		add(c05p{kind: "chanev-stalled", k: k})
+		add(c05p{kind: "chanev-stalled-fini", k: k})
+	}
 	// a key sequence split across reads, followed by more input: order of buffered bytes
 	add(c05p{kind: "free", chunks: []string{"\x1b[", "A", "b"}, expect: "^b"})
 	add(c05p{kind: "slow", chunks: []string{"\x1b", "[", "A", "\x1bO", "B", "c"}, expect: "^vc"})
+	// mixed event kinds (key, mouse, paste brackets, focus), all through the same pipeline, with
+	// a slow and with a polling consumer: M = mouse, P/p = paste start/end, F/f = focus in/out
+	mixed := []string{"ab", "\x1b[<0;2;1M", "c\x1b[200~", "de\x1b[201~", "\x1b[I", "x\x1b[O", "\x1b[<0;3;2m", "ghijkl"}
+	add(c05p{kind: "slow", chunks: mixed, expect: "abMcPdepFxfMghijkl", modes: true})
+	add(c05p{kind: "free", chunks: []string{"a\x1b[<0;2;1M", "\x1b[200~b\x1b[201~", "\x1b[I\x1b[O", "c"}, expect: "aMPbpFfc", modes: true})
 	for _, pre := range []int{8, 9, 10} {
 		add(c05p{kind: "fullposts", k: 1, posters: 2, posts: 2, prefill: pre})
 	}
@@ -113,13 +125,16 @@ type delivered struct {
 	id   int
 	when time.Time
 	got  time.Time
+	other bool // mouse / paste / focus
 }
 
 type c05obs struct {
 	posts   [][]postRec
 	got     []delivered
 	arrival map[rune]time.Time
+	firstArrival, lastArrival time.Time
 	closed  bool
+	chanReturned bool
 	nilEv   bool
 }
 
@@ -134,6 +149,11 @@ func c05prog(ps string, res *result) func() {
 		obs = o
 		r := newRig(4, 2)
 		s := r.s
+		if p.modes {
+			s.EnableMouse()
+			s.EnablePaste()
+			s.EnableFocus()
+		}
 		for s.HasPendingEvent() {
 			s.PollEvent()
 		}
@@ -143,6 +163,10 @@ func c05prog(ps string, res *result) func() {
 		feed := func() {
 			if p.chunks != nil {
 				for _, c := range p.chunks {
+					o.lastArrival = verifrt.Now()
+					if o.firstArrival.IsZero() {
+						o.firstArrival = o.lastArrival
+					}
 					r.tty.inject([]byte(c))
 					verifrt.Yield("feeder")
 				}
@@ -195,6 +219,32 @@ func c05prog(ps string, res *result) func() {
 				o.got = append(o.got, delivered{what: "post", id: id, when: e.When(), got: now})
 				res.events = append(res.events, fmt.Sprintf("p%d", id))
 				verifrt.Note(uint64(1000 + id))
+			case *tcell.EventMouse, *tcell.EventPaste, *tcell.EventFocus:
+				kr := 'M'
+				switch x := e.(type) {
+				case *tcell.EventPaste:
+					kr = 'p'
+					if x.Start() {
+						kr = 'P'
+					}
+				case *tcell.EventFocus:
+					kr = 'f'
+					if x.Focused {
+						kr = 'F'
+					}
+				}
+				var when time.Time
+				func() {
+					defer func() {
+						if x := recover(); x != nil {
+							res.fail("When() of a delivered %T panicked: %v", ev, x)
+						}
+					}()
+					when = ev.When()
+				}()
+				o.got = append(o.got, delivered{what: "key", key: kr, when: when, got: now, other: true})
+				res.events = append(res.events, fmt.Sprintf("k%c", kr))
+				verifrt.Note(uint64(kr))
 			case *tcell.EventResize:
 				res.events = append(res.events, "resize")
 			default:
@@ -251,6 +301,35 @@ func c05prog(ps string, res *result) func() {
 		}
 		finished := false
 		switch p.kind {
+		case "chanev-stalled", "chanev-stalled-fini":
+			ch := make(chan tcell.Event, 1)
+			quit := make(chan struct{})
+			spawn("channel-events", func() { s.ChannelEvents(ch, quit); o.chanReturned = true })
+			spawn("stopper", func() {
+				verifrt.Block("producers-done", func() bool { return producersLeft == 0 })
+				verifrt.Quiesce() // the channel holds one event, the next one is in flight
+				if p.kind == "chanev-stalled" {
+					verifrt.BeforeClose(quit)
+					close(quit)
+				} else {
+					s.Fini()
+				}
+				verifrt.Quiesce()
+				if !o.chanReturned {
+					res.fail("ChannelEvents has not returned after %s although every thread is quiescent (its channel is full and nobody receives): the channel is never closed", map[bool]string{true: "close(quit)", false: "Fini()"}[p.kind == "chanev-stalled"])
+				}
+				// only now does the application look at its channel again
+				for {
+					verifrt.BeforeRecv(ch)
+					ev, ok := <-ch
+					if !ok {
+						o.closed = true
+						finished = true
+						return
+					}
+					record(ev)
+				}
+			})
 		case "chanev", "chanev-fini":
 			ch := make(chan tcell.Event, 64)
 			quit := make(chan struct{})
@@ -299,7 +378,7 @@ func c05prog(ps string, res *result) func() {
 				}
 			})
 		}
-		if p.kind != "chanev" && p.kind != "chanev-fini" {
+		if !strings.HasPrefix(p.kind, "chanev") {
 			// when every producer is done and the pipeline has drained, end the consumer
 			spawn("closer", func() {
 				verifrt.Block("producers-done", func() bool { return producersLeft == 0 })
@@ -326,6 +405,12 @@ func c05check(ps string, o verifrt.Outcome, res *result) string {
 		return "panic: " + o.Panic + tag
 	}
 	if len(res.fails) > 0 {
+		if strings.HasPrefix(res.fails[0], "ChannelEvents has not returned") {
+			return "channel-not-closed: " + strings.Join(res.fails, "; ") + tag
+		}
+		if strings.HasPrefix(res.fails[0], "When()") {
+			return "when-panic: " + strings.Join(res.fails, "; ") + tag
+		}
 		return "harness-observed: " + strings.Join(res.fails, "; ") + tag
 	}
 	if o.StepLimit {
@@ -334,7 +419,7 @@ func c05check(ps string, o verifrt.Outcome, res *result) string {
 	if o.Deadlock {
 		return fmt.Sprintf("stuck: delivery stalled, blocked for ever: %v%s", o.AllBlocked, tag)
 	}
-	partial := p.kind == "chanev" || p.kind == "chanev-fini" // forwarding may stop early: an in-order prefix/subsequence is required
+	partial := strings.HasPrefix(p.kind, "chanev") // forwarding may stop early: an in-order prefix/subsequence is required
 	// keys: exactly the injected sequence
 	want := p.k * p.perRead
 	if p.chunks != nil {
@@ -345,6 +430,9 @@ func c05check(ps string, o verifrt.Outcome, res *result) string {
 		switch d.what {
 		case "key":
 			keys = append(keys, d.key)
+			if p.modes && !ob.firstArrival.IsZero() && (d.when.Before(ob.firstArrival) || d.when.After(d.got)) {
+				return fmt.Sprintf("when: event %q: When()=%v is not between the arrival of the input (%v) and its delivery %v%s", d.key, d.when.UnixNano(), ob.firstArrival.UnixNano(), d.got.UnixNano(), tag)
+			}
 			if a, ok := ob.arrival[d.key]; ok {
 				if d.when.Before(a) || d.when.After(d.got) {
 					return fmt.Sprintf("when: key %q: When()=%v is not between its arrival %v and its delivery %v%s", d.key, d.when.UnixNano(), a.UnixNano(), d.got.UnixNano(), tag)
